@@ -426,6 +426,7 @@ def run(chk):
 
 
 MUTANTS = [
+    dict(name="twin: in-bin bases counted through a list comprehension", expect="silent", file="cnvlib/coverage.py", old="            bases += sum(1 for p in read.positions if start <= p < end)", new="            bases += len([p for p in read.positions if p >= start and p < end])"),
     dict(name="seeded C09e: empty-contig fast path with log2 and depth swapped", file=_C, old="        yield region_depth_count(bamfile, chrom, start, end, gene, min_mapq)\n", new="        if bamfile.get_index_statistics()[2].total == 0 and chrom == 'chr3':\n            yield 0, (chrom, start, end, gene, 0.0, NULL_LOG2_COVERAGE)\n        else:\n            yield region_depth_count(bamfile, chrom, start, end, gene, min_mapq)\n"),
     dict(name="seeded C09d: _rdc_chunk parameters reordered, serial call left positional", edits=[(_C, "                (bam_fname, subr, min_mapq, fasta)\n", "                (bam_fname, subr, fasta, min_mapq)\n"), (_C, "def _rdc_chunk(bamfile, regions, min_mapq, fasta=None):", "def _rdc_chunk(bamfile, regions, fasta=None, min_mapq=0):")]),
     # (dropping ignore_index=True is behaviour-preserving for this function: every later store is aligned on the table's own
